@@ -417,6 +417,21 @@ func cmdGen(args []string) error {
 		bindings map[string]map[string]interface{}
 	}
 	results := make([]result, len(all))
+	// partners for joint requests: an accepted service is also generated together with another
+	// accepted one (two files, two Go packages, one plugin run, both orders).  The services use
+	// the same rpc names, so methods of different call types share a Go name across the files.
+	var plain []int
+	for i := range all {
+		if all[i].Verdict == "accept" && !usesExt(all[i]) {
+			plain = append(plain, i)
+		}
+	}
+	partner := map[int]int{}
+	for k, i := range plain {
+		if len(plain) > 1 {
+			partner[i] = plain[(k+1)%len(plain)]
+		}
+	}
 	var wg sync.WaitGroup
 	sem := make(chan struct{}, 16)
 	for i := range all {
@@ -449,6 +464,21 @@ func cmdGen(args []string) error {
 			}
 			diag := r0.exit != 0 || r0.errResp != ""
 			died := r0.exit != 0 && (strings.TrimSpace(r0.stderr) == "" || strings.Contains(r0.stderr, "panic:") || strings.Contains(r0.stderr, "goroutine "))
+			if j, ok := partner[i]; ok && gorumsOut != "" {
+				// deterministic also means: what is emitted for a file does not depend on the
+				// other files of the request, nor on their order
+				fdj := genFile(j, all[j])
+				mine := strings.TrimSuffix(fd.GetName(), ".proto") + "_gorums.pb.go"
+				for _, order := range [][]*descriptorpb.FileDescriptorProto{{fd, fdj}, {fdj, fd}} {
+					jreq := &pluginpb.CodeGeneratorRequest{FileToGenerate: []string{order[0].GetName(), order[1].GetName()},
+						Parameter: proto.String("paths=source_relative"), ProtoFile: append(append([]*descriptorpb.FileDescriptorProto{}, deps...), order...)}
+					jb, _ := proto.Marshal(jreq)
+					jr := runPluginOnce(*plugin, jb, "")
+					if jr.files[mine] != gorumsOut {
+						same = false
+					}
+				}
+			}
 			o := map[string]interface{}{"diag": diag, "out": gorumsOut != "", "compiles": true, "same": same, "timeout": r0.timeout, "died": died}
 			res := result{o: o, stderr: firstLine(r0.stderr + r0.errResp)}
 			if gorumsOut != "" {
